@@ -26,7 +26,7 @@ func init() {
 // identical and the producers must not share unsynchronised memory.
 func c09Race(r *core.Run) {
 	t := r.T
-	mods := []string{"msi", "jar", "apk", "xap", "appx", "dmg", "bigjar", "msi", "cab", "deb", "ps"}
+	mods := []string{"msi", "jar", "apk", "xap", "appx", "dmg", "bigjar", "msi", "cab", "deb", "ps", "vsix", "mach-o"}
 	c := genSignCase(t, fmt.Sprintf("%dq", r.No), mods)
 	if c.Mod == "bigjar" {
 		c.Mod, c.SigType = "jar", "jar"
